@@ -545,6 +545,15 @@ class Interp:
     def _unit_tables(self):
         if self.unit_one is not None:
             return
+        cached = getattr(self.repo, '_unit_tables_cache', None)
+        if cached is not None:
+            # folded once per repository index (the tables are source literals)
+            self.unit_one, self.unit_pow10, self.prefixes = set(cached[0]), dict(cached[1]), dict(cached[2])
+            return
+        self._fold_unit_tables()
+        self.repo._unit_tables_cache = (set(self.unit_one), dict(self.unit_pow10), dict(self.prefixes))
+
+    def _fold_unit_tables(self):
         m = self.repo.module('pmutt.constants')
         fn = m.functions.get('convert_unit')
         if fn is None:
@@ -3360,6 +3369,8 @@ def builtin_call(I, fr, name, args, kwargs, n):
             return ListV([v.okey(k) for k in v.d.keys()])
         if isinstance(v, str) and v not in I.sym_strings:
             return ListV(list(v))
+        if v is None or isinstance(v, (bool, Rat)):
+            raise _RaisedExc(Raised('TypeError', n))        # not iterable
         raise Unsupported('list() of %r' % (v,), n)
     if name == 'type':
         return TypeOf(args[0])
